@@ -121,7 +121,7 @@ def run_ra(tier, seed):
     if orders is None:
         info['status'] = 'DRIFT: access sites of lr_guarded could not be identified (protocol structure changed)'
         return info, res, 0, 0
-    sizes = [(2, 1, 2), (2, 2, 1)] if tier == 'quick' else [(2, 1, 2), (2, 2, 1), (3, 2, 1), (2, 2, 2), (2, 3, 1)]
+    sizes = [(2, 1, 2), (2, 2, 1), (3, 1, 3), (3, 2, 1)] if tier == 'quick' else [(2, 1, 2), (2, 2, 1), (3, 1, 3), (3, 2, 1), (2, 2, 2), (2, 3, 1), (3, 2, 2)]
     states = trans = 0
     wd = core.workdir('C07ra')
     for (nw, nr, nreads) in sizes:
@@ -130,7 +130,7 @@ def run_ra(tier, seed):
             f.write('SPECIFICATION Spec\nCONSTANTS\n  NW = %d\n  NR = %d\n  NReads = %d\n' % (nw, nr, nreads))
             for s in SITES:
                 f.write('  %s = %d\n' % (s, orders[s]))
-            f.write('INVARIANTS ReaderIsolation\nCHECK_DEADLOCK FALSE\n')
+            f.write('INVARIANTS ReaderIsolation NoRace\nCHECK_DEADLOCK FALSE\n')
         r = core.run_tlc('LeftRightRA.tla', cfg, workers=16, xmx='16g', timeout=1500, dump_trace=True, tag='C07ra')
         core.log('[tlc] LeftRightRA NW=%d NR=%d NReads=%d orders=%s: %d distinct, %s' % (nw, nr, nreads, orders, r.distinct, r.violated or 'holds'))
         states += r.distinct
@@ -139,7 +139,7 @@ def run_ra(tier, seed):
             raise core.Infra('LeftRightRA failed: %s\n%s' % (r.error, r.out[-2000:]))
         if r.violated:
             rp = core.write_replay('C07', 'weak-memory', json.dumps(orders), 'LeftRightRA.tla', [], [], extra={'tlc_counterexample': r.cex, 'orders': orders})
-            res.append({'what': 'C07: with the memory orders the code passes (%s) the left-right protocol admits a reader inside a copy the writer is modifying (%s refuted under the release/acquire model)' % (orders, r.violated),
+            res.append({'what': 'C07: with the memory orders the code passes (%s) the left-right protocol admits a reader inside a copy the writer is modifying, or a payload access not ordered by happens-before after a conflicting one (%s refuted under the release/acquire model)' % (orders, r.violated),
                         'replay': rp, 'monitor': 'LeftRightRA'})
             break
     info['orders'] = orders
